@@ -168,23 +168,34 @@ def _helper_effects(nested, fn_node, env, seen, depth=0, may=False):
     other condition contributes nothing"""
     unreg, restored = False, set()
 
-    def walk(stmts):
+    def walk(stmts) -> bool:
+        """effects of the statements executed for sure; returns True when the sequence ends the function (return / raise)"""
         nonlocal unreg
         for st in stmts:
+            if isinstance(st, (ast.Return, ast.Raise)):
+                scan(st)
+                return True
             if isinstance(st, ast.If):
                 t = st.test
                 neg = isinstance(t, ast.UnaryOp) and isinstance(t.op, ast.Not)
                 tn = t.operand if neg else t
+                known = None
                 if isinstance(tn, ast.Constant):
-                    walk(st.body if (bool(tn.value) ^ neg) else st.orelse)
+                    known = bool(tn.value) ^ neg
                 elif isinstance(tn, ast.Name) and tn.id in env and isinstance(env[tn.id], ast.Constant):
-                    walk(st.body if (bool(env[tn.id].value) ^ neg) else st.orelse)
+                    known = bool(env[tn.id].value) ^ neg
+                if known is not None:
+                    if walk(st.body if known else st.orelse):
+                        return True
                 elif may:
-                    walk(st.body)
-                    walk(st.orelse)
+                    a = walk(st.body)
+                    b = walk(st.orelse)
+                    if a and b:
+                        return True
                 continue
             if isinstance(st, (ast.With, ast.Try)):
-                walk(st.body)
+                if walk(st.body):
+                    return True
                 if may and isinstance(st, ast.Try):
                     for h in st.handlers:
                         walk(h.body)
@@ -196,16 +207,21 @@ def _helper_effects(nested, fn_node, env, seen, depth=0, may=False):
                 continue
             if isinstance(st, (ast.For, ast.While, ast.FunctionDef, ast.AsyncFunctionDef)):
                 continue
-            for c in [x for x in ast.walk(st) if isinstance(x, ast.Call)]:
-                if src(c) == "atexit.unregister(self.cleanup)":
-                    unreg = True
-                if dotted(c.func) == "signal.signal" and len(c.args) == 2 and src(c.args[1]) != "self.handle_error":
-                    restored.add(src(c.args[0]))
-                cn = dotted(c.func)
-                if cn in nested and cn not in seen and depth < 3:
-                    u2, r2 = _helper_effects(nested, nested[cn].node, _call_env(nested[cn].node, c), seen | {cn}, depth + 1, may)
-                    unreg = unreg or u2
-                    restored.update(r2)
+            scan(st)
+        return False
+
+    def scan(st):
+        nonlocal unreg
+        for c in [x for x in ast.walk(st) if isinstance(x, ast.Call)]:
+            if src(c) == "atexit.unregister(self.cleanup)":
+                unreg = True
+            if dotted(c.func) == "signal.signal" and len(c.args) == 2 and src(c.args[1]) != "self.handle_error":
+                restored.add(src(c.args[0]))
+            cn = dotted(c.func)
+            if cn in nested and cn not in seen and depth < 3:
+                u2, r2 = _helper_effects(nested, nested[cn].node, _call_env(nested[cn].node, c), seen | {cn}, depth + 1, may)
+                unreg = unreg or u2
+                restored.update(r2)
 
     walk(fn_node.body)
     return unreg, restored
